@@ -145,7 +145,7 @@ def exact_episodes(rng: random.Random, count: int, stats: dict) -> list[dict]:
     """Run the real code on random F2 instances; one dict per call (JSON-able, integers only)."""
     eps: list[dict] = []
     tries = 0
-    while len(eps) < count and tries < 200 * count:
+    while len(eps) + len(stats.get("raised", [])) < count and tries < 200 * count:
         tries += 1
         m = rng.choice((2, 2, 3))
         J0 = _rand_int_matrix(rng, m)
@@ -173,10 +173,15 @@ def exact_episodes(rng: random.Random, count: int, stats: dict) -> list[dict]:
             stats["routed_to_predicate_32bit"] = stats.get("routed_to_predicate_32bit", 0) + 1
             continue
         e = k - a
-        A = make(agg, pref_tensor(u), 2.0 ** -a, 1.0 / q)
         J = torch.tensor(J0, dtype=torch.float64) * 2.0 ** e
-        w = A.weighting(J).tolist()
-        out = A(J).tolist()
+        try:
+            A = make(agg, pref_tensor(u), 2.0 ** -a, 1.0 / q)
+            w = A.weighting(J).tolist()
+            out = A(J).tolist()
+        except Exception as ex:                                               # noqa: BLE001
+            stats.setdefault("raised", []).append(
+                {"agg": agg, "J0": J0, "e": e, "a": a, "q": q, "u": [str(x) for x in uu], "exc": f"{type(ex).__name__}: {str(ex)[:150]}"})
+            continue
         wr = [rationalise(x) for x in w]
         eps.append({"ep": len(eps) + 1, "J": J0, "e": e, "a": a, "reg": [1, q],
                     "u": [[x.numerator, x.denominator] for x in uu], "agg": agg,
@@ -185,8 +190,41 @@ def exact_episodes(rng: random.Random, count: int, stats: dict) -> list[dict]:
     return eps
 
 
+def report_raised(ctx: Ctx, stats: dict) -> None:
+    for r in stats.get("raised", []):
+        j = ";".join(",".join(str(x) for x in row) for row in r["J0"])
+        ctx.violation(f"trace:{r['agg']}:J=[{j}]:e={r['e']}:a={r['a']}:reg=1/{r['q']}:raised",
+                      f"{r['agg']}(pref={r['u']}, norm_eps=2^-{r['a']}, reg_eps=1/{r['q']}) on J = 2^{r['e']} * {r['J0']} raised "
+                      f"{r['exc']}", {"kind": "raised", **r})
+    stats["raised"] = len(stats.get("raised", []))
+
+
+def rerun_episode(e: dict) -> dict:
+    """Re-execute the call of a logged episode on the current code (used by --replay)."""
+    uu = [Fraction(a, b) for a, b in e["u"]]
+    u = None if e.get("default_pref") else uu
+    A = make(e["agg"], pref_tensor(u), 2.0 ** -e["a"], e["reg"][0] / e["reg"][1])
+    J = torch.tensor(e["J"], dtype=torch.float64) * 2.0 ** e["e"]
+    w = A.weighting(J).tolist()
+    wr = [rationalise(x) for x in w]
+    return e | {"ep": 1, "w": [] if any(x is None for x in wr) else wr, "w_float": w, "out_float": A(J).tolist()}
+
+
+def replay_raised(ctx: Ctx, p: dict) -> None:
+    u = [Fraction(x) for x in p["u"]]
+    J = torch.tensor(p["J0"], dtype=torch.float64) * 2.0 ** p["e"]
+    try:
+        A = make(p["agg"], pref_tensor(u), 2.0 ** -p["a"], 1.0 / p["q"])
+        A.weighting(J)
+        A(J)
+    except Exception as ex:                                                   # noqa: BLE001
+        ctx.violation("trace:raised:replay", f"{p['agg']} raised {type(ex).__name__}: {str(ex)[:150]}", p)
+
+
 def validate_exact(ctx: Ctx, episodes: list[dict], pid: str) -> dict:
     if not episodes:
+        if ctx.violations:
+            return {"episodes": 0, "accepted": 0, "rejected": 0, "skipped": 0}
         raise MachineryError("no exact episode generated")
     with tempfile.TemporaryDirectory(prefix="verif_dualcone_") as d:
         path = os.path.join(d, "episodes.json")
@@ -293,7 +331,15 @@ def predicate_episodes(ctx: Ctx, rng: random.Random, count: int, pid: str) -> in
         if sum(u) == 0:
             u[0] = 1.0
         ut = torch.tensor(u, dtype=torch.float64)
-        wD = make("dualproj", ut, ne, rg).weighting(J).tolist()
+        try:
+            wD = make("dualproj", ut, ne, rg).weighting(J).tolist()
+            make("upgrad", ut, ne, rg).weighting(J)
+        except Exception as ex:                                               # noqa: BLE001
+            ctx.violation(f"pred:{kind}:m={m}:n={n}:seed={ctx.seed}:i={done}:raised",
+                          f"UPGrad/DualProj(pref={u}, norm_eps={ne}, reg_eps={rg}) raised {type(ex).__name__}: {str(ex)[:150]} "
+                          f"on {J.tolist()}", {"kind": "pred", "J": J.tolist(), "u": u, "norm_eps": ne, "reg_eps": rg, "agg": "dualproj"})
+            done += 1
+            continue
         clause = kkt_predicate(J, u, ne, rg, wD)
         key = f"pred:{kind}:m={m}:n={n}:seed={ctx.seed}:i={done}"
         if clause:
@@ -336,9 +382,13 @@ def _mgda_matrix(rng: random.Random):
 
 def mgda_episode(args) -> dict:
     J0, K, ep = args
-    A = make("mgda", None, epsilon=0.0, max_iters=K)
     J = torch.tensor(J0, dtype=torch.float64)
-    out = A(J)
+    try:
+        out = make("mgda", None, epsilon=0.0, max_iters=K)(J)
+        if not bool(torch.isfinite(out).all()):
+            raise ValueError("non-finite output")
+    except Exception as ex:                                                   # noqa: BLE001
+        return {"ep": ep, "J": J0, "K": K, "raised": f"{type(ex).__name__}: {str(ex)[:150]}"}
     a2 = float(out @ out)
     prod = (J @ out).tolist()
     slack = 1e-9 * (1.0 + a2)
@@ -362,6 +412,13 @@ def mgda_episodes(rng: random.Random, count: int, budgets=(1, 2, 3, 10, 100, 100
 
 
 def validate_mgda(ctx: Ctx, episodes: list[dict]) -> dict:
+    for e in [e for e in episodes if "raised" in e]:
+        j = ";".join(",".join(str(x) for x in r) for r in e["J"])
+        ctx.violation(f"trace:mgda:J=[{j}]:K={e['K']}:raised", f"MGDA(epsilon=0, max_iters={e['K']}) on {e['J']}: {e['raised']}",
+                      {"kind": "mgda_trace", "J": e["J"], "K": e["K"]})
+    episodes = [e | {"ep": i + 1} for i, e in enumerate(e for e in episodes if "raised" not in e)]
+    if not episodes:
+        return {"episodes": 0, "accepted": 0, "rejected": 0}
     with tempfile.TemporaryDirectory(prefix="verif_minnorm_") as d:
         path = os.path.join(d, "episodes.json")
         with open(path, "w") as f:
